@@ -23,7 +23,7 @@ import l3  # noqa: E402
 
 COLL_FILES = {"agencies.capnpbin": "agencies", "services.capnpbin": "services", "nodes.capnpbin": "nodes", "lines.capnpbin": "lines",
               "paths.capnpbin": "paths", "scenarios.capnpbin": "scenarios", "dataSources.capnpbin": "dataSources"}
-INCONSISTENCIES = ("trip_unknown_path", "trip_unknown_service", "trip_no_stop_times", "trip_too_many_stop_times", "trip_short_flag_array",
+INCONSISTENCIES = ("trip_unknown_path", "trip_unknown_service", "trip_no_stop_times", "trip_too_many_stop_times", "trip_one_more_stop_time", "trip_short_flag_array",
                    "trip_bad_uuid_text", "trip_arrival_before_departure", "trip_first_arrival_after_departure", "trip_negative_departure",
                    "trips_times_backwards", "line_unknown_agency", "line_unknown_mode", "nodefile_unknown_stop", "nodefile_bad_uuid_text",
                    "nodefile_short_times", "nodefile_negative_walk_time", "path_unknown_stop", "path_unknown_line", "path_bad_json", "scenario_unknown_service",
